@@ -196,7 +196,7 @@ PROPS["C20"] = dict(
     kani=[dict(harness="c20_encode_layout", repo_fn="src/protocol.rs FrameHeader::{new,encode}",
                desc="forall message type, forall payload length (full u32): encode(new(..)) begins with COPA, bytes 4..8 == LE(length), byte 8 == type code, byte 9 == 1, flags 0 — on the compiled library")],
     twins=[dict(name="cli_chain", repo_fn="src/bin/copia/main.rs run_signature/run_delta/run_patch", quick=1, thorough=1, needs_cli=True,
-                contract="the real `copia` binary: signature -> delta -> patch through files reproduces the source; every single-field corruption of the .sig/.delta file ends in a reported error (never a crash), and exit 0 only with bytes matching the checksum")],
+                contract="the real `copia` binary: signature -> delta -> patch through files reproduces the source; every single-field corruption of the .sig/.delta file ends in a reported error (never a crash), and exit 0 only with bytes matching the checksum; plus byte-level corruption (C20: absurd counts and lengths): an 8-byte field at every 5th of the first 400 offsets of a valid .sig / .delta overwritten with 2^40, 2^60, 2^64-1 and read by the CLI under a 1 GiB address-space limit - a reported error, never a signal or a panic")],
     fallback_searches=["codec", "cli"],
     clauses={
         "MessageType::from_u8": "Ok <=> 1..=7, and the decoded variant has that code",
